@@ -1095,6 +1095,21 @@ class Product(Expression):
             yield from expression._iter_variables()
 
 
+def _ranges_subscript_children(ranges: Iterable[Variable], children: Iterable[Variable]) -> bool:
+    """Check if a summed variable also appears as an intervention of one of the children.
+
+    Summing such a variable out of the joint is not a marginalization: the intervention would be left
+    behind as a free variable (e.g., in ``Sum[B](P(B, C @ B))``).
+    """
+    names = {variable.name for variable in ranges}
+    return any(
+        intervention.name in names
+        for child in children
+        if isinstance(child, CounterfactualVariable)
+        for intervention in child.interventions
+    )
+
+
 def _list_to_text(elements: Iterable[Element]) -> str:
     return ", ".join(element.to_text() for element in elements)
 
@@ -1177,7 +1192,11 @@ class Sum(Expression):
         ranges = set(self.ranges)
 
         # Special case when ranges cover
-        if isinstance(expression, Probability) and not expression.parents:  # i.e., no conditions
+        if (
+            isinstance(expression, Probability)
+            and not expression.parents  # i.e., no conditions
+            and not _ranges_subscript_children(ranges, expression.children)
+        ):
             children = {
                 child.get_base(): child
                 for child in expression.children
